@@ -146,6 +146,7 @@ class Run:
 
     def __init__(self, salt: int, direct: bool):
         self.eq = gemlib.Equipment()
+        self.shadow = gemlib.shadow()      # isolation: a second handler with other tables under the same ids, same process
         h = self.eq.h
         self.direct = direct
         self.salt = salt
@@ -342,6 +343,26 @@ def oracle(run, op, out, before, after):
         for r in rs:
             if r not in keys:
                 return ("dangling-link", f"after {op}: CEID {c} is linked to report {r} which is not defined")
+    if op[0] in "RL" and out[0] == "a" and not any(
+            x == "n" for e in op[1:].split(";") if e for part in e.split("=") for x in part.split(",")):
+        # accepted iff E5 gives no reason to deny (conditions on the configuration before the request; requests with an empty id
+        # item are not judged)
+        ents = [(show_id(k), [show_id(x) for x in vs]) for k, vs in parse_entries(op[1:])]
+        defined = {k for k, _ in b[0]}
+        if op[0] == "R":
+            variables = set(SV_CELLS) | set(DV_CELLS) | {"n1003"}
+            reasons = [f"report {r} is already defined" for r, vids in ents if vids and r in defined] + \
+                      [f"VID {v} is no variable" for r, vids in ents if not (vids and r in defined) for v in vids if v not in variables]
+        else:
+            known_ce = set(CFG.split(";")[0][1:].split(","))
+            linked = {k: rs for k, rs, _ in b[1]}
+            reasons = [f"CEID {c} does not exist" for c, _ in ents if c not in known_ce] + \
+                      [f"report {r} is not defined" for _, rs in ents for r in rs if r not in defined] + \
+                      [f"report {r} is already linked to {c}" for c, rs in ents for r in rs if r in linked.get(c, [])]
+        if out != "a0" and not reasons:
+            return ("unjustified-refusal", f"{op} is refused ({out}) although E5 gives no reason: every id exists, nothing is re-defined or linked twice")
+        if out == "a0" and reasons:
+            return ("unjustified-accept", f"{op} is accepted although {reasons[0]}")
     if op[0] in "RL":
         if out != "a0" and before != after:
             return ("refused-but-changed", f"{op} answered {out} but the configuration changed")
@@ -403,6 +424,8 @@ def run_history(ops, salt, direct, gen=None):
             if i >= len(ops):
                 break
             op = ops[i]
+            if i % 4 == 0:
+                run.shadow.step()      # the other handler moves on between the steps of the one under test
             out = run.op(op)
             after = run.dump()
             answers.append(out + "@" + after)
@@ -461,6 +484,8 @@ def main():
             # VIDs that are ids of other id spaces (equipment constants 1, 2, 60; alarm; CEID; RPTID; remote command): DRACK 4, nothing defined
             ["Rn1=n30,n2", "Ln50=n1", "E1:n50", "Qn50", "Tn50", "Rn2=n60", "Rn2=n70;t" + gemlib.hexs("r-t") + "=n50", "Rn2=t" + gemlib.hexs("START") + ",n31",
              "Rn2=n30,n31", "Ln50=n2", "E1:", "Qn50", "Tn50,n50"],
+            # one S2F35 with several events: an already linked CEID first, then an unlinked CEID naming a report the first one holds
+            ["Rn1=n30;n2=n31", "Ln1=n1", "Ln1=n2;n50=n1", "Ln50=n2;n1=n1", "Lt" + gemlib.hexs("ce-t") + "=n1,n2;n50=n2", "E1:", "Qn50", "Tn1,n50"],
             # one trigger call over enabled / disabled / unlinked / unknown CEIDs in every position, with repeats
             ["Rn1=n30;n2=n31", "Ln1=n1;n50=n2,n1;t" + gemlib.hexs("ce-t") + "=n2", "E1:n1,n50", "Tn1,t" + gemlib.hexs("ce-t") + ",n50",
              "Tt" + gemlib.hexs("ce-t") + ",n1", "Tn99,n50,n2,n1", "Tn50,n50", "E0:n1", "Tn1,n50,n1", "Tn1", "Tn2,n99"],
